@@ -534,9 +534,43 @@ fn doc_expr(rng: &mut Rng, w: &GWorld) -> String {
     render::expr_text(&e, &mut o)
 }
 
+/// `{"Value": {"__extn": ..}}` / `{"<fn>": [..]}` nodes with every extension function name and 0..2 arguments
+/// (wrong arities and kinds included): accepted shapes that printers and evaluators must survive
+fn odd_ext_node(rng: &mut Rng) -> J {
+    const FNS: [&str; 24] = [
+        "decimal", "ip", "datetime", "duration", "lessThan", "lessThanOrEqual", "greaterThan", "greaterThanOrEqual", "isIpv4", "isIpv6", "isLoopback",
+        "isMulticast", "isInRange", "offset", "durationSince", "toDate", "toTime", "toMilliseconds", "toSeconds", "toMinutes", "toHours", "toDays", "unknown", "nosuchfn",
+    ];
+    let f = *rng.pick(&FNS);
+    let n = rng.below(3);
+    let arg = |rng: &mut Rng| -> J {
+        match rng.below(4) {
+            0 => json!("1.5"),
+            1 => json!(7),
+            2 => json!({"__extn": {"fn": "decimal", "arg": "1.0"}}),
+            _ => json!("127.0.0.1"),
+        }
+    };
+    let args: Vec<J> = (0..n).map(|_| arg(rng)).collect();
+    match rng.below(3) {
+        0 => json!({"Value": {"__extn": {"fn": f, "args": args}}}),
+        1 => json!({"Value": {"__extn": {"fn": f, "arg": arg(rng)}}}),
+        _ => json!({f: args.iter().map(|a| json!({"Value": a})).collect::<Vec<_>>()}),
+    }
+}
+
 fn doc_est(rng: &mut Rng, w: &GWorld, template: bool) -> J {
     let p = gen_gpolicy(rng, w, template);
-    render::est_policy(&p)
+    let mut j = render::est_policy(&p);
+    if rng.chance(1, 5) {
+        // one more condition whose body is (or compares) an extension node of odd arity
+        let node = odd_ext_node(rng);
+        let body = if rng.bool() { node } else { json!({"==": {"left": node, "right": odd_ext_node(rng)}}) };
+        if let Some(cs) = j.get_mut("conditions").and_then(|c| c.as_array_mut()) {
+            cs.push(json!({"kind": if rng.bool() { "when" } else { "unless" }, "body": body}));
+        }
+    }
+    j
 }
 
 fn link_json(rng: &mut Rng, w: &GWorld, tid: &str, new_id: &str) -> J {
@@ -562,6 +596,15 @@ fn doc_estset(rng: &mut Rng, w: &GWorld) -> J {
         ts.insert(format!("t{}", i), render::est_policy(&both));
     }
     let mut links = vec![];
+    if rng.chance(1, 6) {
+        // a link whose templateId names a static policy, a link, or nothing at all
+        let tid = rng.pick(&["p0", "p1", "l0", "nosuch", ""]).to_string();
+        let mut v = Map::new();
+        if rng.bool() {
+            v.insert("?principal".into(), json!({"__entity": render::uid_json(&some_uid(rng, w))}));
+        }
+        links.push(json!({"templateId": tid, "newId": rng.pick(&["lx", "p0", "t0"]).to_string(), "values": J::Object(v)}));
+    }
     if nt > 0 {
         for i in 0..rng.below(3) {
             let tid = format!("t{}", rng.below(nt));
@@ -909,6 +952,15 @@ fn ffi_policies_value(rng: &mut Rng, w: &GWorld) -> J {
         templates.insert(format!("t{}", i), if rng.bool() { json!(doc_policy(rng, w, true)) } else { doc_est(rng, w, true) });
     }
     let mut links = vec![];
+    if rng.chance(1, 6) {
+        // a link whose templateId names a static policy, a link, or nothing at all
+        let tid = rng.pick(&["p0", "p1", "l0", "nosuch", ""]).to_string();
+        let mut v = Map::new();
+        if rng.bool() {
+            v.insert("?principal".into(), json!({"__entity": render::uid_json(&some_uid(rng, w))}));
+        }
+        links.push(json!({"templateId": tid, "newId": rng.pick(&["lx", "p0", "t0"]).to_string(), "values": J::Object(v)}));
+    }
     if nt > 0 {
         for i in 0..rng.below(3) {
             let tid = format!("t{}", rng.below(nt));
@@ -3146,6 +3198,11 @@ fn run(ctx: &mut CaseCtx, fix: &Fix) {
         ctx.count("directed:ffi-partial-slot-in-residual");
         let call = r#"{"principal":{"type":"B","id":"b"},"resource":{"type":"A","id":"r"},"context":{},"policies":{"staticPolicies":{},"templates":{"t":"permit(principal, action == Action::\"view\", resource == ?resource) when { 1 + true };"},"templateLinks":[{"templateId":"t","newId":"l","values":{"?resource":{"type":"A","id":"r"}}}]},"entities":[]}"#;
         feed(ctx, fix, Kind::FfiPartialAuthz, call.as_bytes());
+        return;
+    }
+    if ctx.idx == nk * 5 + 2 {
+        ctx.count("directed:protobuf-encode-of-unknown");
+        feed(ctx, fix, Kind::Context, br#"{"a": {"__extn": {"fn": "unknown", "arg": "x"}}}"#);
         return;
     }
     let (kind, strat) = if ctx.idx < nk * 5 {
